@@ -9,6 +9,7 @@ use crate::{with_variant, Ctx};
 use serde_json::{json, Value};
 use std::collections::HashMap;
 use std::io::ErrorKind;
+use std::os::unix::fs::OpenOptionsExt;
 use std::sync::Mutex;
 use tlsh::{GeneratorError, GeneratorOrIOError};
 
@@ -201,7 +202,7 @@ pub fn run(r: &mut Report, ctx: &Ctx) {
     if ctx.want("files") {
         r.section(
             "files",
-            "real files of sizes 0, 1, 384, BUF-1, BUF, BUF+1, 2*BUF, 3*BUF+5, 4*BUF in a run-private scratch directory: hash_file_for / hash_file == hash_buf of the file contents (Ok or the same GeneratorError); a missing path is IOError(NotFound); a directory path is an IOError; non-trivial = all",
+            "real files of sizes 0, 1, 384, BUF-1, BUF, BUF+1, 2*BUF, 3*BUF+5, 4*BUF in a run-private scratch directory: hash_file_for / hash_file == hash_buf of the file contents (Ok or the same GeneratorError); a FIFO fed by a writer thread and procfs files (metadata length 0, content present) hash like their contents; a missing path is IOError(NotFound); a directory path is an IOError; non-trivial = all",
             "9 sizes x 5 variants + missing path + directory",
             true,
             |s| {
@@ -248,6 +249,74 @@ pub fn run(r: &mut Report, ctx: &Ctx) {
                     }
                     let _ = std::fs::remove_file(&path);
                 }
+                // paths whose metadata does not announce their content: a FIFO fed by a writer thread
+                // (st_size == 0, short reads) and a procfs file (st_size == 0)
+                for (fi, &sz) in [100_000usize, BUF + 5].iter().enumerate() {
+                    let path = dir.join(format!("fifo{fi}"));
+                    let cpath = std::ffi::CString::new(path.to_string_lossy().as_bytes()).unwrap();
+                    let rc = unsafe { libc::mkfifo(cpath.as_ptr(), 0o600) };
+                    if rc != 0 {
+                        s.caps.push("MACHINERY: mkfifo failed; FIFO cases skipped".into());
+                        continue;
+                    }
+                    let data = Stream::Mixed.bytes(0, sz);
+                    for v in [1usize, 0] {
+                        let wpath = path.clone();
+                        let wdata = data.clone();
+                        let writer = std::thread::spawn(move || {
+                            use std::io::Write;
+                            if let Ok(mut f) = std::fs::OpenOptions::new().write(true).open(&wpath) {
+                                for chunk in wdata.chunks(4099) {
+                                    if f.write_all(chunk).is_err() {
+                                        break;
+                                    }
+                                }
+                            }
+                        });
+                        fn go<V: Variant>(path: &std::path::Path, data: &[u8]) -> Result<u64, String> {
+                            let got = catch(|| V::hash_file(path)).map_err(|p| format!("hash_file panicked: {p}"))?;
+                            let expect = V::hash_buf(data);
+                            match (&got, &expect) {
+                                (Ok(h), Ok(e)) if h == e => Ok(0),
+                                (Err(GeneratorOrIOError::GeneratorError(a)), Err(b)) if a == b => Ok(1),
+                                _ => Err(format!("{}: hash_file of a FIFO delivering {} bytes = {:?} but hash_buf(contents) = {:?}", V::NAME, data.len(), got.map(|h| h.to_string()), expect.map(|h| h.to_string()))),
+                            }
+                        }
+                        s.acc.evals += 1;
+                        s.acc.transitions += 2;
+                        s.acc.nontrivial += 1;
+                        let res = with_variant!(v, go(&path, &data));
+                        // unblock the writer if the reader never opened / stopped early, then join
+                        let _ = std::fs::OpenOptions::new().read(true).custom_flags_nonblock().open(&path);
+                        let _ = writer.join();
+                        match res {
+                            Ok(c) => {
+                                s.acc.outcomes.insert(c | 0x100 | (sz as u64) << 12);
+                                s.acc.sample(2000 + (fi * 2 + v) as u64, || json!({"variant": VARIANT_NAMES[v], "fifo_bytes": sz, "outcome_class": c}));
+                            }
+                            Err(e) => s.acc.fail(2000 + (fi * 2 + v) as u64, "files", e, json!({"kind": "file", "key": "file-fifo", "variant": VARIANT_NAMES[v], "size": sz})),
+                        }
+                    }
+                    let _ = std::fs::remove_file(&path);
+                }
+                for pseudo in ["/proc/filesystems", "/proc/version", "/proc/sys/kernel/ostype"] {
+                    let p = std::path::Path::new(pseudo);
+                    if let (Ok(a), Ok(b)) = (std::fs::read(p), std::fs::read(p)) {
+                        if a != b || a.is_empty() {
+                            continue;
+                        }
+                        s.acc.evals += 1;
+                        s.acc.transitions += 2;
+                        s.acc.nontrivial += 1;
+                        let got = catch(|| VShort::hash_file(p).map(|h| h.to_string()).map_err(|e| format!("{e:?}")));
+                        let expect = VShort::hash_buf(&a).map(|h| h.to_string()).map_err(|e| format!("GeneratorError({e:?})"));
+                        if got.as_ref().ok() != Some(&expect) {
+                            s.acc.fail(3000, "files", format!("Short: hash_file({pseudo}) = {got:?} but hash_buf of its {} bytes = {expect:?}", a.len()), json!({"kind": "file", "key": "file-pseudo", "variant": "Short", "size": a.len()}));
+                        } else {
+                            s.acc.outcomes.insert(0x200 + a.len() as u64);
+                        }
+                    }
+                }
                 // missing path and directory
                 s.acc.evals += 2;
                 s.acc.transitions += 2;
@@ -281,5 +350,14 @@ pub fn replay(case: &Value) -> Result<(), String> {
             with_variant!(v, rs(&sc))
         }
         k => Err(format!("replay kind {k}: re-run the check")),
+    }
+}
+
+trait NonBlockOpen {
+    fn custom_flags_nonblock(&mut self) -> &mut Self;
+}
+impl NonBlockOpen for std::fs::OpenOptions {
+    fn custom_flags_nonblock(&mut self) -> &mut Self {
+        self.custom_flags(libc::O_NONBLOCK)
     }
 }
